@@ -76,6 +76,14 @@ type c12Cmd struct {
 	signSerial *big.Int // bootstrap: first signing key serial; rotate: override (nil = none)
 	now        int64    // unix seconds
 	wca, wkeys bool
+	// Cloud KMS stack only (c12_kms.go): the environment of the command, external events (kind 'x'), and - filled
+	// in after a bootstrap ran - whether the objects named after its root / signing certificate changed
+	gen    int
+	dl     bool
+	ext    string // "settle", "disable", "expire"
+	extKey string
+	extIdx int
+	wr, ws bool
 }
 
 func (c c12Cmd) enc() string {
@@ -99,6 +107,8 @@ func (c c12Cmd) kindName() string {
 		return "bootstrap"
 	case 'r':
 		return "rotate"
+	case 'x':
+		return "ext-" + c.ext
 	}
 	switch {
 	case c.wca && c.wkeys:
@@ -185,6 +195,11 @@ func (o *c12Obs) line(ok bool) string {
 
 func (o *c12Obs) empty() bool {
 	return o.pr == "" && o.ps == "" && o.root == nil && len(o.names) == 0 && len(o.live) == 0 && len(o.objects) == 0
+}
+
+// emptyCA: the certificate authority serves, records and stores nothing (the key manager is not looked at).
+func (o *c12Obs) emptyCA() bool {
+	return o.pr == "" && o.ps == "" && o.root == nil && len(o.names) == 0 && len(o.objects) == 0
 }
 
 func c12PssOpts() crypto.SignerOpts {
@@ -712,14 +727,20 @@ var (
 
 func c12RunHistory(which int, h []c12Cmd, seed uint64, seq bool) (res c12Result) {
 	res.counts = map[string]int{}
-	find := func(sig, what string, k int) {
-		res.finds = append(res.finds, c12Finding{sig, what, fmt.Sprintf("stack=%s cmds=%s (after command %d)", c12StackNames[which], c12EncHist(h[:k+1]), k+1)})
-	}
+	h = append([]c12Cmd(nil), h...)
 	st, err := c12NewStack(which, seed)
 	if err != nil {
 		panic(err)
 	}
 	defer st.close()
+	kms, _ := st.(*c12Kms)
+	encHist := c12EncHist
+	if kms != nil {
+		encHist = c12EncHistK
+	}
+	find := func(sig, what string, k int) {
+		res.finds = append(res.finds, c12Finding{sig, what, fmt.Sprintf("stack=%s cmds=%s (after command %d)", c12StackNames[which], encHist(h[:k+1]), k+1)})
+	}
 	cand := map[string]bool{"root": true, "primarySigningKey": true, "_1": true}
 	everLive := map[string]bool{}     // names that could sign at some point since the last key wipeout
 	everRecorded := map[string]bool{} // names recorded by the authority since the last CA wipeout
@@ -728,6 +749,11 @@ func c12RunHistory(which int, h []c12Cmd, seed uint64, seq bool) (res c12Result)
 	prev := st.observe(cand)
 	for k, c := range h {
 		populated := !prev.empty()
+		if kms != nil {
+			// Cloud KMS hands out a new version number for every key it creates and bootstrap adopts the ENABLED
+			// versions it finds, so only the certificate store decides whether a bootstrap runs "over a populated store"
+			populated = !prev.emptyCA()
+		}
 		var ok bool
 		var created string
 		panicked, msg, stack := Guard(func() { ok, created = st.exec(c) })
@@ -742,6 +768,13 @@ func c12RunHistory(which int, h []c12Cmd, seed uint64, seq bool) (res c12Result)
 		}
 		line := cur.line(ok)
 		op := fmt.Sprintf("c12 op=hist ca=%s km=%s seq=%s cli=%s cmds=%s", st.caName(), st.kmName(), b2s(seq), b2s(st.cli()), c12EncHist(h[:k+1]))
+		if kms != nil {
+			if c.kind == 'b' {
+				h[k].wr, h[k].ws = c12ObjChanged(prev, cur, c.rootCn, c.rootSerial), c12ObjChanged(prev, cur, c.signCn, c.signSerial)
+			}
+			op, line = kms.opLine(h[:k+1]), line+" "+kms.versLine()
+			kms.oracle(c, ok, prev, cur, find, k, res.counts)
+		}
 		res.ops = append(res.ops, op)
 		res.impls = append(res.impls, line)
 		anyOk := ok
@@ -841,7 +874,7 @@ func c12RunHistory(which int, h []c12Cmd, seed uint64, seq bool) (res c12Result)
 		// --- a certificate newly recorded by this command was made by this command (no entry without its upload):
 		//     certificates are signed with fresh randomness, so bytes that were already stored before the command
 		//     are not this command's
-		if c.kind != 'w' {
+		if c.kind != 'w' && c.kind != 'x' {
 			var ppaths []string
 			for p := range prev.objects {
 				ppaths = append(ppaths, p)
@@ -901,7 +934,7 @@ func c12RunHistory(which int, h []c12Cmd, seed uint64, seq bool) (res c12Result)
 			}
 		}
 		// --- no certificate object changes without overwrite
-		if !c.ow && c.kind != 'w' {
+		if !c.ow && c.kind != 'w' && c.kind != 'x' {
 			var paths []string
 			for p := range prev.objects {
 				paths = append(paths, p)
@@ -941,12 +974,20 @@ func c12RunHistory(which int, h []c12Cmd, seed uint64, seq bool) (res c12Result)
 		if c.kind == 'w' && ok && c.wca {
 			everRecorded, kgEntry = map[string]bool{}, map[string]bool{}
 		}
-		if cur.empty() {
+		if cur.empty() || (kms != nil && cur.emptyCA()) {
 			tainted = false
 		}
 		prev = cur
 	}
 	return
+}
+
+// c12ObjChanged: the certificate object gcsca names after (cn, serial) was created, removed or rewritten.
+func c12ObjChanged(prev, cur *c12Obs, cn string, serial *big.Int) bool {
+	p := fmt.Sprintf("%s/%s-%s.crt", c12CertDir, cn, serial)
+	a, okA := prev.objects[p]
+	b, okB := cur.objects[p]
+	return okA != okB || !bytes.Equal(a, b)
 }
 
 func c12Has(l []string, s string) bool {
